@@ -7,6 +7,9 @@ TR = "trace_handlers/trace.py"
 TP = "traces_parser.py"
 PF = "trace_handlers/perf.py"
 MUTANTS = [
+    F("C07", "parse_vnode indexed by a caller-chosen position, guarded for emptiness only", "traces_parser.py",
+      "    def parse_vnode(self, events):\n        try:\n            return self.parse_vnodes(events)[0]\n        except IndexError:\n            return Vnode([], 0, '')\n",
+      "    def parse_vnode(self, events, index=0):\n        vnodes = self.parse_vnodes(events)\n        if not vnodes:\n            return Vnode([], 0, '')\n        return vnodes[index]\n", "R1"),
     F("C07", "renameat guard deleted", B, "    path2 = nodes[1].path if len(nodes) > 1 else ''\n    return BscRenameat(", "    path2 = nodes[1].path\n    return BscRenameat(", "R1"),
     F("C07", "len(x) > 1 weakened to truthiness", B, "    path2 = nodes[1].path if len(nodes) > 1 else ''\n    args = events[0].values\n    return BscLinkat(",
       "    path2 = nodes[1].path if nodes else ''\n    args = events[0].values\n    return BscLinkat(", "R1"),
